@@ -7,6 +7,7 @@
 -/
 import Lcapy.Proofs.Reassemble
 import Mathlib.Tactic.LinearCombination
+import Mathlib.Data.Complex.Basic
 namespace Lcapy.C03
 open Lcapy.Decompose Lcapy.Laplace
 variable {K : Type} [Field K]
@@ -107,7 +108,18 @@ theorem reassemble_laplace_transform (E : K → K) (hE0 : E 0 = 1) (j : K) (hj :
   exact (termLap_is_transform E hE0 j hj h2 X s t hs (hw t ht)).symm
 end
 
-/-- non-vacuity (ℚ has no `j`; the hypotheses of `phasor_laplace` hold in ℚ(j) — here the closed form itself):
+/-- non-vacuity of the hypotheses of `phasor_laplace` / `termLap_is_transform`: ℂ with j = i, ω = 3, s = 1 -/
+example : ∃ (j w s : ℂ), j * j = -1 ∧ (1 + 1 : ℂ) ≠ 0 ∧ s ≠ 0 ∧ s - j * w ≠ 0 ∧ s + j * w ≠ 0 := by
+  refine ⟨Complex.I, 3, 1, Complex.I_mul_I, ?_, one_ne_zero, ?_, ?_⟩
+  · norm_num
+  · intro h
+    have := congrArg Complex.re h
+    simp at this
+  · intro h
+    have := congrArg Complex.re h
+    simp at this
+
+/-- the closed form itself:
     X = 3 + 4j at ω = 3, s = 1: (3·1 − 4·3)/(1 + 9) = −9/10 -/
 example : phasorLap (3 : ℚ) 4 3 1 = -9 / 10 := by norm_num [phasorLap]
 
